@@ -173,7 +173,7 @@ def run_driver(requests: list[dict], timeout: int = 1200) -> dict[int, dict]:
     data = "".join(json.dumps(r, ensure_ascii=False) + "\n" for r in requests)
     p = subprocess.run([str(exe)], input=data, capture_output=True, text=True, timeout=timeout)
     out: dict[int, dict] = {}
-    for line in p.stdout.splitlines():
+    for line in p.stdout.split("\n"):
         line = line.strip()
         if not line:
             continue
